@@ -95,7 +95,7 @@ def certain(d):
 
 
 class Sym:
-    def __init__(self, fa, watch=None, cut=None, stop=None, tuples=None, returns=None, rewrite=None, truth=None, cap=40000):
+    def __init__(self, fa, watch=None, cut=None, stop=None, tuples=None, returns=None, rewrite=None, truth=None, cap=40000, records=None):
         """watch(text, expr) -> bool : literals to remember along a path (also used to prune contradictions)
         cut(dnf) -> bool            : edges not to follow
         stop(literals) -> bool      : path classes not to continue
@@ -109,6 +109,7 @@ class Sym:
         self.cut = cut
         self.stop = stop
         self.tuples = tuples or {}
+        self.records = records or {}   # {class: ([constructor parameters], {field: expression over them})}
         self.rets = returns or {}
         self.rewrite = rewrite
         self.xtruth = truth
@@ -116,6 +117,13 @@ class Sym:
         self._tok = {}
         self._produced = {}
         self.states = {}
+        # module-level names bound once to a record built from constants (`_NOT_FOUND = Result(None, False)`) stand for it
+        self.consts = {}
+        for nm_, v_ in (getattr(fa.fi.module, "assigns", {}) or {}).items():
+            if isinstance(v_, ast.Call) and A.call_attr(v_) in self.tuples and not any(isinstance(a_, ast.Starred) for a_ in v_.args) \
+                    and all(isinstance(a_, ast.Constant) for a_ in list(v_.args) + [k_.value for k_ in v_.keywords]) \
+                    and all(k_.arg for k_ in v_.keywords) and not fa.df.is_local(nm_):
+                self.consts[nm_] = v_
         self._explore()
 
     # ---- expressions ---------------------------------------------------------------------------
@@ -136,6 +144,19 @@ class Sym:
                 and isinstance(n.slice.value, int) and -len(n.value.elts) <= n.slice.value < len(n.value.elts) \
                 and not any(isinstance(x, ast.Starred) for x in n.value.elts):
             return n.value.elts[n.slice.value]  # (a, b)[0]
+        if isinstance(n, ast.Attribute) and isinstance(n.value, ast.Call) and A.call_attr(n.value) in self.records \
+                and not any(isinstance(a, ast.Starred) for a in n.value.args) and all(k.arg for k in n.value.keywords):
+            # a field of a freshly constructed plain object is what its __init__ stored there
+            params, fieldmap = self.records[A.call_attr(n.value)]
+            if n.attr in fieldmap:
+                bound = {}
+                for i, pn in enumerate(params):
+                    a_ = A.arg_or_kw(n.value, i, pn)
+                    if a_ is not None:
+                        bound[pn] = a_
+                need_ = {x for x in A.names_in(fieldmap[n.attr]) if x in params}
+                if need_ <= set(bound):
+                    return subst(fieldmap[n.attr], bound)
         if isinstance(n, (ast.Attribute, ast.Subscript)) and isinstance(n.value, ast.Call):
             ctor = A.call_attr(n.value)
             if ctor in self.tuples and not any(isinstance(a, ast.Starred) for a in n.value.args):
@@ -175,6 +196,8 @@ class Sym:
             def visit_Name(self, n):
                 if isinstance(n.ctx, ast.Load) and n.id not in bound and n.id in env:
                     return sym._p(env[n.id])
+                if isinstance(n.ctx, ast.Load) and n.id not in bound and n.id in sym.consts:
+                    return copy.deepcopy(sym.consts[n.id])
                 return n
 
             def visit_Attribute(self, n):
@@ -243,6 +266,9 @@ class Sym:
                     # a caught exception object is not None
                     for (a_, b_) in ((l, r), (r, l)):
                         if A.is_none(b_) and isinstance(a_, ast.Name) and a_.id.startswith("_exc"):
+                            same = False
+                        # nor is a display (tuple, list, dict, set, f-string)
+                        if A.is_none(b_) and isinstance(a_, (ast.Tuple, ast.List, ast.Dict, ast.Set, ast.JoinedStr)):
                             same = False
                         # nor is a named tuple (constructed here, or returned by a function known to return one)
                         if A.is_none(b_) and isinstance(a_, ast.Call) and (A.call_attr(a_) in self.tuples or A.call_attr(a_) in self.rets):
@@ -492,6 +518,70 @@ def namedtuple_fields(ck, modname, name):
     raise AnalysisError("%s.%s: named tuple declaration not found" % (modname, name))
 
 
+def record_types(ck, modname):
+    """{name: [field names]} of the record types a module declares: NamedTuple / namedtuple (functional or class form) and
+    dataclasses.  A field read of a freshly constructed record is the constructor argument, whatever the record is called."""
+    mod = ck.repo.modules.get(modname)
+    out = {}
+    if mod is None:
+        return out
+    for st in mod.tree.body:
+        if isinstance(st, ast.Assign) and isinstance(st.value, ast.Call) and A.call_attr(st.value) in ("NamedTuple", "namedtuple"):
+            for t in st.targets:
+                if isinstance(t, ast.Name):
+                    try:
+                        out[t.id] = namedtuple_fields(ck, modname, t.id)
+                    except AnalysisError:
+                        pass
+        elif isinstance(st, ast.ClassDef):
+            is_nt = any("NamedTuple" in A.norm(b) for b in st.bases)
+            is_dc = any(A.norm(d.func if isinstance(d, ast.Call) else d).split(".")[-1] == "dataclass" for d in st.decorator_list)
+            if is_nt or is_dc:
+                fields = [s_.target.id for s_ in st.body if isinstance(s_, ast.AnnAssign) and isinstance(s_.target, ast.Name)]
+                if fields:
+                    out[st.name] = fields
+    return out
+
+
+def class_records(ck, modname):
+    """{class: ([constructor parameters], {field: expression})} for the plain classes of a module whose __init__ stores its
+    parameters (or expressions over them) in fields, once, unconditionally -- a "method object" / parameter object."""
+    mod = ck.repo.modules.get(modname)
+    out = {}
+    if mod is None:
+        return out
+    for cls in mod.all_classes():
+        init = cls.methods.get("__init__")
+        if init is None or init.is_static or len(init.params) < 1 or cls.node.bases:
+            continue
+        a = init.node.args
+        if a.vararg or a.kwarg:
+            continue
+        me, params = init.params[0], init.params[1:]
+        fieldmap, dropped = {}, set()
+        for st in A.all_stmts(init.node):
+            tgs = st.targets if isinstance(st, ast.Assign) else [st.target] if isinstance(st, (ast.AnnAssign, ast.AugAssign)) else []
+            for t in tgs:
+                for x in ast.walk(t):
+                    if isinstance(x, ast.Attribute) and isinstance(x.value, ast.Name) and x.value.id == me:
+                        top = st in init.node.body and isinstance(st, (ast.Assign, ast.AnnAssign)) and x is t and getattr(st, "value", None) is not None
+                        if not top or x.attr in fieldmap or me in A.names_in(st.value):
+                            dropped.add(x.attr)
+                        else:
+                            fieldmap[x.attr] = st.value
+        # a field that any other method assigns is not a constant of the object
+        for m in cls.methods.values():
+            if m is init or not m.params:
+                continue
+            for x in ast.walk(m.node):
+                if isinstance(x, ast.Attribute) and isinstance(x.ctx, (ast.Store, ast.Del)) and isinstance(x.value, ast.Name) and x.value.id == m.params[0]:
+                    dropped.add(x.attr)
+        fieldmap = {f: v for f, v in fieldmap.items() if f not in dropped}
+        if fieldmap:
+            out[cls.name] = (params, fieldmap)
+    return out
+
+
 def exact_class(ck, call):
     """Class of the object a call constructs, when that is evident: `Cls(...)`, or a function of the
     repository all of whose returns are `Cls(...)`."""
@@ -545,6 +635,14 @@ def possible_values(fa, expr, at, _depth=0):
         return possible_values(fa, expr.body, at, _depth + 1) + possible_values(fa, expr.orelse, at, _depth + 1)
     if isinstance(expr, ast.BoolOp):
         return [v for x in expr.values for v in possible_values(fa, x, at, _depth + 1)]
+    if isinstance(expr, ast.Call) and _depth <= 3 and isinstance(expr.func, ast.Name) and fa.df.is_local(expr.func.id):
+        # a function picked from a table and then called: what any of the functions it can stand for returns
+        out = []
+        for fv in possible_values(fa, expr.func, at, _depth + 1):
+            if isinstance(fv, ast.Name) and not fa.df.is_local(fv.id):
+                out += possible_values(fa, ast.Call(func=fv, args=list(expr.args), keywords=list(expr.keywords)), at, _depth + 1)
+        if out:
+            return out
     if isinstance(expr, ast.Call) and _depth <= 3:
         callee, _off = resolve_callee(fa, expr)
         if callee is not None and callee.node is not fa.node:
@@ -660,10 +758,20 @@ def check_exhaustive(ck, R):
         D = dispatch_model(ck, fo, repo_subclass_pairs(ck))
         if D is not None:
             worlds = [(k, kind, "actual") for k in D.named() + ["None", "<no class>"] for kind in ("exact", "sub")]
+            texts = set()
             for w in worlds:
-                for (kind, val) in D.outcome(w):
-                    if kind == "return" and val.startswith("ResultType.") and val.split(".", 1)[1].isidentifier():
-                        returned.add(val.split(".")[1])
+                texts |= {val for (kind, val) in D.outcome(w) if kind == "return"}
+            for val in sorted(texts | D.helper_returns):
+                if val.startswith("ResultType.") and val.split(".", 1)[1].isidentifier():
+                    returned.add(val.split(".")[1])
+                    continue
+                try:   # e.g. a look-up in a literal table: any of its values
+                    for v in possible_values(fo, _parse(val), None):
+                        d = A.dotted(v)
+                        if d and d.startswith("ResultType.") and d.count(".") == 1:
+                            returned.add(d.split(".")[1])
+                except (AnalysisError, SyntaxError, AttributeError, TypeError, IndexError, KeyError):
+                    pass
     except _Unsupported:
         pass
     rt = ck.repo.cls("metadata.ResultType")
@@ -739,7 +847,8 @@ def _runner_sym(ck, fa, **kw):
     """Symbolic view with the facts the runner rules share: ExistingMementoResult is a named tuple that
     process_existing_memento returns; a constructed object's class decides isinstance tests on it; classifying a
     MementoException yields ResultType.exception (checked on from_object's first rung)."""
-    tuples = {"ExistingMementoResult": namedtuple_fields(ck, "runner", "ExistingMementoResult")}
+    tuples = dict(record_types(ck, fa.fi.module.name))
+    tuples["ExistingMementoResult"] = namedtuple_fields(ck, "runner", "ExistingMementoResult")
     exc_first = classifies_exception(ck)
 
     def rewrite(n):
@@ -751,7 +860,7 @@ def _runner_sym(ck, fa, **kw):
         return None
 
     return Sym(fa, tuples=tuples, returns={"process_existing_memento": "ExistingMementoResult"}, rewrite=rewrite,
-               truth=lambda t: isinstance_truth(ck, t), **kw)
+               truth=lambda t: isinstance_truth(ck, t), records=class_records(ck, fa.fi.module.name), **kw)
 
 
 def _is_call_to(e, name):
@@ -955,9 +1064,10 @@ def check_run_record_replay(ck, R):
     # memoize only if not already memoized: every state calling memoize has seen is_memoized(<this call>) answer no
     look_arg = None
     for c in lookup_calls:
-        a0 = rl.expand(single_lookup(c)) if single_lookup(c) is not None and rl.nodes(c) else None
-        if a0 is not None and _is_call_to(a0, "fn_reference_with_arg_hash") and A.call_recv(a0) is not None:
-            look_arg = A.norm(A.call_recv(a0))
+        for (env, _lits) in (S.at(c) if single_lookup(c) is not None else []):
+            a0 = _parse(S.text(single_lookup(c), env))
+            if _is_call_to(a0, "fn_reference_with_arg_hash") and A.call_recv(a0) is not None:
+                look_arg = A.norm(A.call_recv(a0))
     oki = look_arg is not None
     for c in mem:
         for (env, lits) in S.at(c):
